@@ -262,12 +262,14 @@ func fanScenario(c fanCfg) scenario {
 				}
 			})
 			vsched.Go("feeder", func() {
+				vsched.Pause()
 				for i := 0; i < c.nMsg; i++ {
 					vsched.Observe("feed-start", i)
 					feed(i)
 				}
 			})
 			vsched.Go("controllerA", func() {
+				vsched.Pause()
 				for cyc := 0; cyc < c.cycles; cyc++ {
 					cyc := cyc
 					id, ach, err := fan.SpawnOutput()
@@ -457,7 +459,7 @@ func main() {
 		x := vsched.Run(scs[si].run, choices, vsched.Options{Trace: true})
 		fmt.Println("scenario:", scs[si].name)
 		for i, t := range x.Trace {
-			fmt.Printf("%3d %s\n", i, t)
+			fmt.Printf("%3d %s    options=%v key=%x\n", i, t, x.Points[i].Options, x.Points[i].Key)
 		}
 		fmt.Println("observations:", obsList(x))
 		fmt.Println("blocked:", x.Blocked, "panic:", x.Panic)
@@ -472,7 +474,7 @@ func main() {
 		}
 		outcomes := map[string]bool{}
 		b := *bound + sc.dBound
-		rep := vsched.Explore(sc.run, vsched.ExploreOpts{Bound: b, Shard: *shard, NShards: *nshards, Deadline: time.Now().Add(*budget), Prune: true,
+		rep := vsched.Explore(sc.run, vsched.ExploreOpts{Bound: b, Shard: *shard, NShards: *nshards, Deadline: time.Now().Add(*budget), Prune: os.Getenv("NOPRUNE") == "",
 			Check: sc.check,
 			Outcome: func(x *vsched.Execution) string {
 				o := strings.Join(obsList(x), ";")
